@@ -440,7 +440,10 @@ class ParseMachine(StateMachine):
         self.check_ambiguity(value)
         if self.flag and self.flag.takes_value:
             debug("Setting flag {!r} to value {!r}".format(self.flag, value))
-            self.flag.value = value
+            try:
+                self.flag.value = value
+            except ValueError as e:
+                self.error("Flag {!r} got invalid value {!r}: {}".format(self.flag, value, e))
             self.flag_got_value = True
         else:
             self.error("Flag {!r} doesn't take any value!".format(self.flag))
@@ -448,7 +451,10 @@ class ParseMachine(StateMachine):
     def see_positional_arg(self, value: Any) -> None:
         for arg in self.context.positional_args:
             if arg.value is None:
-                arg.value = value
+                try:
+                    arg.value = value
+                except ValueError as e:
+                    self.error("Argument {!r} got invalid value {!r}: {}".format(arg, value, e))
                 break
 
     def error(self, msg: str) -> None:
